@@ -360,6 +360,29 @@ def h_nucleic_state(eng, ff, kind):
         eng.check(str(x.ffname) == want, "nucleotide-keyed-by-final-state", note=f"{seq} with {omit or 'nothing'} missing from the input: residue {i + 1} ({'with' if ribo else 'without'} O2') is parameterised as {x.ffname}, final state is {want}")
 
 
+def h_user_files(eng):
+    """the real main_driver in the recording environment of flow.py: the force field that parameterises the run is built
+    from exactly the files the user named - --userff and --usernames as given, also --usernames next to a built-in --ff
+    (the documented naming map is then the user's file; round 6: a loader helper that dropped the names file unless
+    --userff was given fell back to the built-in map silently)"""
+    from . import flow
+
+    w = flow.World(eng, "r", False, {}, [])
+    opts = flow.symbolic_options(eng, fixed=dict(pka=0, ligand=0), formatting=dict(whitespace=False, keep_chain=False, include_header=False, ffout=0, pdb_output=0, apbs_input=0))
+    if opts["ff"] is not None:
+        opts["usernames"] = ["user.names", None][eng.choice("usernames_next_to_builtin_ff", 2)]
+    exc = flow.run_driver(w, opts)
+    builds = [a for n, a, k in w.raw if n == "Forcefield"]
+    if exc is not None and not builds:
+        eng.check(True, "run-ended-before-loading")
+        return
+    want_ff = opts["ff"]
+    main_builds = [a for a in builds if len(a) >= 4 and ((a[0] is None and want_ff is None) or (a[0] is not None and want_ff is not None and str(a[0]).lower() == str(want_ff).lower()))]  # transform_arguments lower-cases --ff
+    eng.check(len(main_builds) >= 1 or bool(opts["clean"]), "force-field-loaded", note=f"no force field built for --ff={want_ff} --userff={opts['userff']} (stages {[n for n, _a, _k in w.raw][:8]})")
+    for a in main_builds:
+        eng.check(a[2] == opts["userff"] and a[3] == opts["usernames"], "force-field-built-from-the-named-files", note=f"--ff={want_ff} --userff={opts['userff']} --usernames={opts['usernames']}: the force field was built from userff={a[2]} usernames={a[3]}")
+
+
 def obligations(tier):
     obs = []
     seps_list = [[" "], ["\t"], ["   ", " \t "]] if tier == "quick" else [[" "], ["\t"], ["   ", " \t "], ["  ", "\t\t"]]
@@ -390,6 +413,7 @@ def obligations(tier):
     for ff in (1,) if tier == "quick" else (0, 1, 2):
         obs.append(Obligation(f"ligand-run-no-default-ff{ff}", c16.h_transfer, dict(ff=ff, collisions=False), group="no-default", time_cap=1200))
     obs.append(Obligation("names-semantics", table_names_semantics, {}, kind="table", group="names"))
+    obs.append(Obligation("user-files-reach-the-force-field", h_user_files, {}, group="user-files", time_cap=900, max_paths=100000))
     return obs
 
 
